@@ -13,7 +13,7 @@ MANIFEST = {
  'design_ref': 'DESIGN.md §6 C05',
 }
 THEOREMS = ['C05.driverParseMsg_total', 'C05.driverParseMsg_str', 'C05.unescape_escape', 'C05.parse_format', 'C05.parse_total', 'C05.format_cached', 'C05.tagEscape_table_sep',
-            'C05.hostFields_total', 'C05.parseFull_total', 'C05.wf_of_wfd', 'C05.wfd_of_wf',
+            'C05.hostFields_total', 'C05.copy_identity', 'C05.copy_fields', 'C05.pickle_roundtrip', 'C05.parseFull_total', 'C05.wf_of_wfd', 'C05.wfd_of_wf',
             'C05.tagEscape_table_ok']
 TRUSTED = ['Lean 4.33.0 kernel; axioms ⊆ {propext, Classical.choice, Quot.sound}',
            'harness/extract.py (SERVER_TAG_ESCAPE table → Gen/IrcMsgs.lean)',
@@ -313,6 +313,41 @@ def explore(ctx, n_wf, n_near, n_raw, n_esc, corpus_lines=()):
         lines.append('wf\t%s\t%s\t%s\t%s' % (wire.enc(pfx), wire.enc(cmd), wire.enc_list(args), enc_tags(tags)))
         pend.append((w, fill_wf))
         add_parse(s, kind + '-reparse')
+        # copy constructor and pickling of this message
+        if r.random() < 0.3:
+            p2 = r.choice(['', '', 'other!u@h']); c2 = r.choice(['', '', 'NOTICE']); a2 = r.choice([[], [], ['#x', 'new text']])
+            try:
+                mc = ircmsgs.IrcMsg(msg=m, prefix=p2, command=c2, args=tuple(a2))
+                outc = '%s\t%s\t%s\t%s\t%s' % (wire.enc(mc.prefix), wire.enc(mc.command), wire.enc_list(mc.args), enc_tags(mc.server_tags), wire.enc(str(mc)))
+                okc = True; msgc = ''
+            except Exception as e:
+                outc = 'crash\t' + type(e).__name__; okc = False; msgc = 'IrcMsg(msg=...) raised %s' % type(e).__name__
+            cc = Case({'op': 'copy', 'prefix': pfx, 'command': cmd, 'args': list(args), 'tags': tags, 'over': [p2, c2, a2]},
+                      impl=outc, oracle_ok=okc, oracle_msg=msgc, kind=kind, tags=('copy',))
+            cases.append(cc)
+            lines.append('copy\t%s\t%s\t%s\t%s\t%s\t%s\t%s' % (wire.enc(pfx), wire.enc(cmd), wire.enc_list(args), enc_tags(tags), wire.enc(p2), wire.enc(c2), wire.enc_list(a2)))
+            pend.append((cc, lambda o: o))
+        if r.random() < 0.1:
+            import pickle, copy as _copy
+            try:
+                m3 = pickle.loads(pickle.dumps(m)); m4 = _copy.copy(m)
+                canon2 = {k: (v if v else None) for k, v in tags.items()}
+                same = all((x.prefix, x.command, tuple(x.args), dict(x.server_tags)) == (pfx, cmd, tuple(args), canon2) for x in (m3, m4))
+            except ircmsgs.MalformedIrcMsg:
+                same = None
+            except Exception as e:
+                same = False
+            pc = Case({'op': 'pickle', 'prefix': pfx, 'command': cmd, 'args': list(args), 'tags': tags}, kind=kind, tags=('pickle',))
+            def fill_pickle(o, pc=pc, same=same):
+                f = o.split('\t')
+                need = wire.dec_opt(f[1]) if len(f) > 1 else None
+                if f[0] == '1' and (need is None or time_ok(need)):
+                    pc.oracle_ok = bool(same)
+                    pc.oracle_msg = '' if same else 'pickle/copy of a well-formed message does not give back its fields'
+                return None
+            cases.append(pc)
+            lines.append('wf\t%s\t%s\t%s\t%s' % (wire.enc(pfx), wire.enc(cmd), wire.enc_list(args), enc_tags(tags)))
+            pend.append((pc, fill_pickle))
 
     def add_esc(v):
         if not valid_unicode(v):
